@@ -44,6 +44,7 @@ func c14Walk(fn func(rel string, f *ast.File)) {
 
 type c14Reg struct {
 	name, file string
+	receiver   string
 	persistent bool
 	filters    []string // Lean Filter terms
 	raw        []string
@@ -68,8 +69,86 @@ func c14Expr(e ast.Expr) string {
 		return "(" + c14Expr(x.X) + ")"
 	case *ast.StarExpr:
 		return "*" + c14Expr(x.X)
+	case *ast.CompositeLit:
+		var es []string
+		for _, el := range x.Elts {
+			es = append(es, c14Expr(el))
+		}
+		t := ""
+		if x.Type != nil {
+			t = c14Expr(x.Type)
+		}
+		return t + "{" + strings.Join(es, ", ") + "}"
+	case *ast.KeyValueExpr:
+		return c14Expr(x.Key) + ": " + c14Expr(x.Value)
+	case *ast.FuncLit:
+		if len(x.Body.List) == 1 {
+			if r, ok := x.Body.List[0].(*ast.ReturnStmt); ok && len(r.Results) == 1 {
+				return "func => " + c14Expr(r.Results[0])
+			}
+		}
 	}
 	return exprString(e)
+}
+
+// c14Returns lists, in source order, every `return …` of a function together with the if-conditions it sits under
+// (outermost first; "else" branches as !(cond)): how a receiver maps what happened to (done, error)
+func c14Returns(f *ast.File, name string) []string {
+	fd := funcDecl(f, name)
+	if fd == nil {
+		return []string{"MISSING " + name}
+	}
+	var out []string
+	var walk func(n ast.Node, guards []string)
+	walk = func(n ast.Node, guards []string) {
+		switch x := n.(type) {
+		case nil:
+		case *ast.BlockStmt:
+			for _, st := range x.List {
+				walk(st, guards)
+			}
+		case *ast.IfStmt:
+			c := c14Expr(x.Cond)
+			if x.Init != nil {
+				if as, ok := x.Init.(*ast.AssignStmt); ok && len(as.Rhs) == 1 {
+					c = c14Expr(as.Rhs[0]) + "; " + c
+				}
+			}
+			walk(x.Body, append(append([]string{}, guards...), c))
+			if x.Else != nil {
+				walk(x.Else, append(append([]string{}, guards...), "!("+c+")"))
+			}
+		case *ast.ForStmt:
+			walk(x.Body, append(append([]string{}, guards...), "for"))
+		case *ast.RangeStmt:
+			walk(x.Body, append(append([]string{}, guards...), "range "+c14Expr(x.X)))
+		case *ast.SwitchStmt, *ast.TypeSwitchStmt, *ast.SelectStmt:
+			out = append(out, fmt.Sprintf("<%T>", x))
+		case *ast.AssignStmt:
+			// re-classification of the error on the way (err = dag.EventFatal{…})
+			if x.Tok == token.ASSIGN && len(x.Lhs) == 1 && len(x.Rhs) == 1 && exprString(x.Lhs[0]) == "err" {
+				if _, ok := x.Rhs[0].(*ast.CompositeLit); ok {
+					g := strings.Join(guards, " && ")
+					if g != "" {
+						g += " => "
+					}
+					out = append(out, g+"err = "+c14Expr(x.Rhs[0]))
+				}
+			}
+		case *ast.ReturnStmt:
+			var rs []string
+			for _, r := range x.Results {
+				rs = append(rs, c14Expr(r))
+			}
+			g := strings.Join(guards, " && ")
+			if g != "" {
+				g += " => "
+			}
+			out = append(out, g+"return "+strings.Join(rs, ", "))
+		}
+	}
+	walk(fd.Body, nil)
+	return out
 }
 
 func c14Conjuncts(e ast.Expr) []ast.Expr {
@@ -508,6 +587,51 @@ func extractC14() *lean {
 	l.def("stateNotifiersConditions", "Nat", fmt.Sprint(notifiersIfs), notifiersIfs)
 	l.def("stateNotifiersRangeReturns", "List String", leanStrList(notifiersRet), notifiersRet)
 
+	// ---- how each registered receiver maps what happened to (done, error): retry / fatal / done
+	_, vdrf := parseFile("vdr/didnuts/ambassador.go")
+	_, vcrf := parseFile("vcr/ambassador.go")
+	_, protf := parseFile("network/transport/v2/protocol.go")
+	for _, x := range []struct {
+		def  string
+		file *ast.File
+		fn   string
+	}{
+		{"natsReceiverReturns", nwf, "emitEvents"},
+		{"vdrReceiverReturns", vdrf, "handleNetworkEvent"},
+		{"vcrVcsReceiverReturns", vcrf, "handleNetworkVCs"},
+		{"vcrRevocationsReceiverReturns", vcrf, "handleNetworkRevocations"},
+		{"vcrHandleErrorReturns", vcrf, "handleError"},
+		{"privateReceiverReturns", protf, "handlePrivateTxRetry"},
+		{"cleanupSubscriberEventsReturns", nwf, "CleanupSubscriberEvents"},
+	} {
+		r := c14Returns(x.file, x.fn)
+		l.def(x.def, "List String", leanStrList(r), r)
+	}
+	// which receiver function each registration hands to Subscribe/Notifier is part of `registrations` below (receiver)
+	// CleanupSubscriberEvents: calls made
+	var cleanupCalls []string
+	if fd := funcDecl(nwf, "CleanupSubscriberEvents"); fd != nil {
+		ast.Inspect(fd, func(n ast.Node) bool {
+			if ce, ok := n.(*ast.CallExpr); ok {
+				cleanupCalls = append(cleanupCalls, c14Expr(ce))
+			}
+			return true
+		})
+	}
+	l.def("cleanupSubscriberEventsCalls", "List String", leanStrList(cleanupCalls), cleanupCalls)
+	// the store the persistent subscribers of other engines get (subscriber.go) is the store the DAG state is opened on (Configure)
+	var kvArgs []string
+	_, subf := parseFile("network/subscriber.go")
+	for _, ff := range []*ast.File{subf, nwf} {
+		ast.Inspect(ff, func(n ast.Node) bool {
+			if ce, ok := n.(*ast.CallExpr); ok && strings.HasSuffix(exprString(ce.Fun), "storeProvider.GetKVStore") {
+				kvArgs = append(kvArgs, c14Expr(ce))
+			}
+			return true
+		})
+	}
+	l.def("dagStoreLookups", "List String", leanStrList(kvArgs), kvArgs)
+
 	// ---- protocol v2 handleTransactionPayload: order of the state calls
 	_, hf := parseFile("network/transport/v2/handlers.go")
 	var hcalls []string
@@ -578,7 +702,7 @@ func extractC14() *lean {
 				return true
 			}
 			name, _ := strconv.Unquote(bl.Value)
-			r := c14Reg{name: name, file: rel}
+			r := c14Reg{name: name, file: rel, receiver: c14Expr(ce.Args[1])}
 			for _, a := range ce.Args[2:] {
 				oc, ok := a.(*ast.CallExpr)
 				if !ok {
@@ -609,12 +733,14 @@ func extractC14() *lean {
 		})
 	})
 	sort.Slice(regs, func(i, j int) bool { return regs[i].name < regs[j].name })
-	var terms []string
+	var terms, recvs []string
 	var raw []map[string]interface{}
 	for _, r := range regs {
 		terms = append(terms, fmt.Sprintf("(%q, %v, [%s])", r.name, r.persistent, strings.Join(r.filters, ", ")))
-		raw = append(raw, map[string]interface{}{"name": r.name, "file": r.file, "persistent": r.persistent, "filters": r.raw, "lean": r.filters})
+		raw = append(raw, map[string]interface{}{"name": r.name, "file": r.file, "persistent": r.persistent, "filters": r.raw, "lean": r.filters, "receiver": r.receiver})
+		recvs = append(recvs, r.name+" <- "+r.receiver)
 	}
 	l.def("registrations", "List (String × Bool × List Filter)", "[\n  "+strings.Join(terms, ",\n  ")+"]", raw)
+	l.def("registrationReceivers", "List String", leanStrList(recvs), recvs)
 	return l
 }
